@@ -87,3 +87,40 @@ Example C09_ex_twos : int_to_twos (-1625) 2 = Some (zfill 16 (bin 63911)) /\ two
 Proof. split; reflexivity. Qed.
 Example C09_ex_checksum : checksum [102; 111; 111; 111] = 76.
 Proof. reflexivity. Qed.
+
+(* IEEE-754 singles (struct's C casts, modelled on bit patterns): every 32-bit pattern that is not a
+   signalling NaN survives decode-then-encode; signalling NaNs do not (recorded finding
+   real32_snan_quieted); finite doubles at or above 2^128 are refused. *)
+From DS Require Import Model.UtilsF32 Proofs.UtilsF32Proofs.
+
+Theorem C09_real32_encode_decode_except_snan : forall p, 0 <= p < 2 ^ 32 -> is_snan32 p = false ->
+  narrow64 (widen32 p) = Some p.
+Proof. exact real32_roundtrip. Qed.
+Print Assumptions C09_real32_encode_decode_except_snan.
+
+Theorem C09_real32_bytes_except_snan : forall l le x, bytes l ->
+  bytes_to_real32 l le = Some x ->
+  is_snan32 (be_dec (if le then rev l else l)) = false ->
+  real_to_bytes32 x le = Some l.
+Proof. exact real32_bytes_roundtrip. Qed.
+Print Assumptions C09_real32_bytes_except_snan.
+
+Theorem C09_real32_snan_refuted : exists p, 0 <= p < 2 ^ 32 /\ narrow64 (widen32 p) <> Some p.
+Proof. exact real32_snan_refuted. Qed.
+Print Assumptions C09_real32_snan_refuted.
+
+Theorem C09_real32_overflow_refused : forall s e m, 0 <= s <= 1 -> 1151 <= e < 2047 -> 0 <= m < 2 ^ 52 ->
+  narrow64 (s * 2 ^ 63 + e * 2 ^ 52 + m) = None.
+Proof. exact real32_overflow_refused. Qed.
+Print Assumptions C09_real32_overflow_refused.
+
+(* Modified Julian Date, calendar part: every day of 1900-01-01 .. 2199-12-31 round-trips exactly
+   (at midnight) through mjd() and mjd_to_date(), computed with the kernel's primitive binary64
+   arithmetic.  The sub-day (microsecond) part is covered by the implementation-level oracle only. *)
+From Coq Require Import PrimFloat.
+From DS Require Import Model.UtilsMjd Proofs.UtilsMjdProofs.
+
+Theorem C09_mjd_day_roundtrip_partial : forall y m d, 1900 <= y < 2200 -> valid_date (y, m, d) = true ->
+  civil_of (mjd_day y m d) 0%float = (y, m, d, 0, 0, 0, 0).
+Proof. exact mjd_day_roundtrip. Qed.
+Print Assumptions C09_mjd_day_roundtrip_partial.
